@@ -29,6 +29,9 @@ structure Obj where
   cert : Cert
   hasKey : Bool
   signers : List Nat
+  /-- the certificate as it was parsed from its bytes (`set` operations change `cert` only); `none`
+  for objects that were not made from bytes -/
+  orig : Option Cert := none
 
 structure St where
   objs : List (Nat × Obj) := []
@@ -88,8 +91,10 @@ def record? : List String → Option Obj
     let tbs ← tbs.toNat?
     let hk ← if hk = "1" then some true else if hk = "0" then some false else none
     if is = "zero" ∨ es = "zero" then none
-    else some ⟨{ ctype := t, names := ns, issuedAt := i, expiresAt := e, pubKey := pk, parent := par, fp := fp,
-                 rawLen := rl, tbs := tbs }, hk, sg⟩
+    else
+      let c : Cert := { ctype := t, names := ns, issuedAt := i, expiresAt := e, pubKey := pk, parent := par, fp := fp,
+                        rawLen := rl, tbs := tbs }
+      some ⟨c, hk, sg, some c⟩
   | _ => none
 
 def splitOracle (ws : List String) : List String × List String :=
@@ -114,7 +119,7 @@ def cands? (s : String) : Option Unit :=
 def issued (st : St) (i : Nat) (sg : List Nat) (r : Option Cert) : St × String :=
   match r with
   | none => ({ st with objs := st.objs.filter (fun e => e.1 != i) }, "err")
-  | some c => (st.setObj i ⟨c, true, sg⟩, showRecord ⟨c, true, sg⟩)
+  | some c => (st.setObj i ⟨c, true, sg, none⟩, showRecord ⟨c, true, sg, none⟩)
 
 def step (st : St) (ws : List String) : St × String :=
   match splitOracle ws with
@@ -158,6 +163,16 @@ def step (st : St) (ws : List String) : St × String :=
     match i.toNat? with
     | some i => match st.obj i with
       | some o => ({ st with store := addCertificate st.store o.cert }, "ok")
+      | none => (st, "bad-op")
+    | none => (st, "bad-op")
+  | ("addbundle" :: ids, []) =>
+    -- a PEM bundle of the objects' bytes read with ReadManyCertificatesPEM and added one by one, as
+    -- LoadRootStoreFromPEMFile does: each certificate as parsed from its own bytes
+    match ids.mapM (fun i => i.toNat?.bind st.obj) with
+    | some os =>
+      if os.isEmpty then (st, "bad-op") else
+      match os.mapM (·.orig) with
+      | some cs => ({ st with store := cs.foldl addCertificate st.store }, s!"ok {cs.length}")
       | none => (st, "bad-op")
     | none => (st, "bad-op")
   | (["verify", i, p, n, s, ns, cs, cns], []) =>
